@@ -8,7 +8,7 @@ property statement (plus the analytic Fourier symbol of the filter, which the st
     Lagrangian numba variant): cell-wise  min(f,t) <= out <= max(f,t);  out == f where chi == 0
     (bitwise in float64 -- (f+0)/1 is exact in IEEE double; in float32 GCC's -Ofast replaces the
     vectorised division by rcpps + one Newton step, measured 1 ulp off, so float32 is held to
-    4 eps |f|);  |out - t| non-increasing along lambda = 0, 1e0 .. 1e12;  out -> t at lambda = 1e12.
+    16 eps |f|);  |out - t| non-increasing along lambda = 0, 1e0 .. 1e12;  out -> t at lambda = 1e12.
 (b) sine Heaviside: sorted phi => H non-decreasing, 0 <= H <= 1, H == 0 / 1 exactly strictly beyond
     the blend width, H(phi)+H(-phi) == 1, probes at +-width and one ulp either side, C1 joints
     ("smooth": H(-w+h) <= 2 (h/w)^2).
@@ -24,7 +24,7 @@ property statement (plus the analytic Fourier symbol of the filter, which the st
 Tolerances (K * eps_t * magnitude; measured max err/tol on the unchanged tree + F6.diff, seeds 0..5 quick,
 0..1 thorough, both precisions):
   brinkmann bounds / monotone / limit   32 eps max(|f|,|t|)              measured <= 0.063
-  brinkmann chi == 0                    float64 bitwise; float32 4 eps|f| measured <= 0.25 (1 ulp)
+  brinkmann chi == 0                    float64 bitwise; float32 16 eps|f| measured <= 0.063 (1 ulp)
   heaviside range, monotone, symmetry, edge values   16 eps              measured <= 0.063 (1 eps)
   heaviside joints                      2 (h/w)^2 + 16 eps               measured <= 0.051
   damping ring                          8 eps (pi/2)(N/w) M_edge         measured <= 0.053   (-Ofast contracts
@@ -90,7 +90,7 @@ RULE = (
     "3 garbage histories.  distinct = (operator, variant, dim, precision, width/order, input class, sub-check)."
 )
 ASSUMPTIONS = [
-    "IEEE float64 division by exactly 1.0 is exact (chi == 0 bitwise in float64); float32 uses rcpps+Newton under -Ofast, held to 4 eps |f|",
+    "IEEE float64 division by exactly 1.0 is exact (chi == 0 bitwise in float64); float32 uses rcpps+Newton under -Ofast, held to 16 eps |f|",
     "plane-wave samples are evaluated from integer phases pi*q/8, q mod 16, so they are exact to 1 ulp",
     "boundary-damping kernels bake (width, dx, extent): shapes come from a fixed pool, only field values depend on the seed",
     "filter symbols are asserted only at index distance >= order+1 from every face (each 1-D pass widens the zero ring's influence by one cell)",
@@ -216,7 +216,7 @@ def _brink_monitor(rec, label, run, f, t, chi, real_t, cls, meta, lambdas=LAMBDA
                 rec.count("brinkmann_chi0_bitwise_cells", int(z.sum()))
             else:
                 d = np.abs(O[z] - F[z])
-                rr = float(np.max(d / (4 * eps * np.abs(F[z]) + 1e-300)))
+                rr = float(np.max(d / (16 * eps * np.abs(F[z]) + 1e-300)))
                 rec.stat("brinkmann_chi0_f32_ulp", rr)
                 ok = rr <= 1
             if not ok:
@@ -258,7 +258,7 @@ def _brink(sh, rec):
     if d == 2:
         kfs = spne.gen_brinkmann_penalise_vs_fixed_val_pyst_kernel_2d(real_t=real_t, num_threads=2, field_type="scalar")
         kfv = spne.gen_brinkmann_penalise_vs_fixed_val_pyst_kernel_2d(real_t=real_t, num_threads=2, field_type="vector")
-    nshape = 3 if thorough else 1
+    nshape = 5 if thorough else 1
     for _ in range(nshape):
         shape = util.shape2d(rng, 5, 48) if d == 2 else util.shape3d(rng, 4, 18)
         meta = {"dim": d, "dtype": sh["dtype"], "shape": shape}
@@ -354,7 +354,7 @@ def _charfn(sh, rec):
     rng = util.rng_for(sh["seed"], ID, sh["name"])
     thorough = sh["tier"] != "quick"
     gen = spne.gen_char_func_from_level_set_via_sine_heaviside_pyst_kernel_2d if d == 2 else spne.gen_char_func_from_level_set_via_sine_heaviside_pyst_kernel_3d
-    widths = [0.125, 0.3, 1e-3, 7.7] + [float(np.round(rng.uniform(0.01, 3.0), 3)) for _ in range(3 if thorough else 1)]
+    widths = [0.125, 0.3, 1e-3, 7.7] + [float(np.round(rng.uniform(0.01, 3.0), 3)) for _ in range(6 if thorough else 1)]
     for bw in widths:
         try:
             k = gen(blend_width=bw, real_t=real_t, num_threads=2)
@@ -368,7 +368,7 @@ def _charfn(sh, rec):
             c = real_t(s) * b
             edges += [np.nextafter(c, real_t(-np.inf)), c, np.nextafter(c, real_t(np.inf))]
         joints = [real_t(s * bw * (1 - h)) for s in (-1, 1) for h in (1 / 8, 1 / 16, 1 / 64)]
-        for rep in range(4 if thorough else 2):
+        for rep in range(6 if thorough else 2):
             shape = util.shape2d(rng, 6, 60) if d == 2 else util.shape3d(rng, 4, 16)
             n = int(np.prod(shape))
             meta = {"dim": d, "dtype": sh["dtype"], "shape": shape, "blend_width": bw}
@@ -670,7 +670,7 @@ def _filter(sh, rec):
                 if var == "scalar":
                     ms = lattice if thorough else even + [lattice[int(i)] for i in rng.choice(len(lattice), size=60, replace=False)]
                 else:
-                    ms = [lattice[int(i)] for i in rng.choice(len(lattice), size=90 if thorough else 24, replace=False)]
+                    ms = [lattice[int(i)] for i in rng.choice(len(lattice), size=240 if thorough else 24, replace=False)]
                 for j, m in enumerate(ms):
                     for phase in ("cos", "sin"):
                         amp = float(rng.choice([1.0, 3.7, 1e-3, 250.0]))
